@@ -1,4 +1,271 @@
-import PgsVerif.Model.Persist
+import PgsVerif.Proofs.Persist
+import PgsVerif.Props.C11
+/-!
+# C10 — the response means, to protoc, exactly what the artifacts said
+
+`persist` transcribes `stdPersister.Persist` over the flat list of response chunks (index
+arithmetic of `indexOfFile` / `tailOfFile` / `insertFile` / `insertAppend`); `meaning` is the
+abstract semantics over entries (a file with its appends, or an injection); `interp` is protoc's
+reading of a response.  For **all** artifact lists and **all** post-processor stacks.
+-/
 namespace Pgs.Persist
-theorem placeholder_C10 : True := trivial
+open Pgs
+
+/-- the persister state represents the abstract meaning -/
+structure Rel (st : State) (m : Meaning) : Prop where
+  files : st.resp.files = flat m.entries
+  error : st.resp.error = m.error
+  wf : WF m.entries
+
+theorem cleanOK_nonempty (name n : Bytes) (h : cleanOK name = .ok n) : n ≠ [] := by
+  unfold cleanOK at h
+  cases hc : C11.cleanName name with
+  | rejected => rw [hc] at h; cases h
+  | accepted c =>
+    rw [hc] at h
+    cases h
+    obtain ⟨_, hall, _⟩ := C11.C11_accepted_normal name n hc
+    intro e
+    subst e
+    simp [splitOn, C11.properSeg] at hall
+
+theorem wf_append (es : List Entry) (e : Entry) (h : WF es) (he : e.name ≠ []) : WF (es ++ [e]) := by
+  intro x hx
+  rcases List.mem_append.mp hx with h1 | h1
+  · exact h x h1
+  · simp at h1; subst h1; exact he
+
+theorem wf_replace (P Q : List Entry) (e e' : Entry) (h : WF (P ++ e :: Q)) (he : e'.name = e.name) : WF (P ++ e' :: Q) := by
+  intro x hx
+  rcases List.mem_append.mp hx with h1 | h1
+  · exact h x (List.mem_append_left _ h1)
+  · rcases List.mem_cons.mp h1 with rfl | h2
+    · rw [he]; exact h e (by simp)
+    · exact h x (by simp [h2])
+
+/-- `insertFile` on a flat response -/
+theorem insertFile_refines (es : List Entry) (hw : WF es) (n c : Bytes) (ow : Bool) (hn : n ≠ []) :
+    let i := es.findIdx (isFileEntry n)
+    insertFile (flat es) ⟨some n, none, c⟩ ow =
+      flat (if ow && i < es.length then es.modify i (setContent c) else es ++ [.file n c []]) ∧
+    WF (if ow && i < es.length then es.modify i (setContent c) else es ++ [.file n c []]) := by
+  intro i
+  by_cases how : ow = true
+  · by_cases hlt : i < es.length
+    · obtain ⟨P, c0, apps, Q, hes, hP, hlen⟩ := split_at_file n es hlt
+      have hi : i = P.length := hlen.symm
+      simp only [how, hlt, Bool.true_and, decide_true, if_true]
+      subst hes
+      rw [hi, modify_at_length]
+      refine ⟨?_, wf_replace P Q _ _ hw rfl⟩
+      unfold insertFile
+      simp only [if_true, Option.getD_some]
+      rw [indexOfFile_flat_some n c0 apps P Q hP]
+      simp only [flat_append, flat_cons, chunks, setContent, List.cons_append]
+      rw [List.set_append_right _ _ (by omega)]
+      simp
+    · simp only [how, hlt, Bool.true_and, decide_false, Bool.false_eq_true, if_false]
+      refine ⟨?_, wf_append es _ hw (by simpa [Entry.name] using hn)⟩
+      unfold insertFile
+      simp only [if_true, Option.getD_some]
+      rw [indexOfFile_flat_none n es hlt]
+      simp [flat_append, flat_cons, chunks, flat_nil]
+  · have how' : ow = false := by simpa using how
+    simp only [how', Bool.false_and, Bool.false_eq_true, if_false]
+    refine ⟨?_, wf_append es _ hw (by simpa [Entry.name] using hn)⟩
+    unfold insertFile
+    simp [flat_append, flat_cons, chunks, flat_nil]
+
+theorem drop_len_succ {α} (A : List α) (x : α) (B : List α) : (A ++ x :: B).drop (A.length + 1) = B := by
+  induction A with
+  | nil => simp
+  | cons a A ih => simpa using ih
+
+theorem take_len_add {α} (A : List α) (x : α) (B C : List α) :
+    (A ++ x :: (B ++ C)).take (A.length + B.length + 1) = A ++ x :: B := by
+  induction A with
+  | nil => simp
+  | cons a A ih =>
+    have : (a :: A).length + B.length + 1 = (A.length + B.length + 1) + 1 := by simp; omega
+    rw [this]; simpa using ih
+
+theorem drop_len_add {α} (A : List α) (x : α) (B C : List α) :
+    (A ++ x :: (B ++ C)).drop (A.length + B.length + 1) = C := by
+  induction A with
+  | nil => simp
+  | cons a A ih =>
+    have : (a :: A).length + B.length + 1 = (A.length + B.length + 1) + 1 := by simp; omega
+    rw [this]; simpa using ih
+
+/-- `insertAppend` on a flat response -/
+theorem insertAppend_refines (es : List Entry) (hw : WF es) (n c : Bytes) :
+    let i := es.findIdx (isFileEntry n)
+    (i < es.length → insertAppend (flat es) n ⟨none, none, c⟩ = .ok (flat (es.modify i (addApp c))) ∧
+        WF (es.modify i (addApp c))) ∧
+    (¬ i < es.length → insertAppend (flat es) n ⟨none, none, c⟩ = .error .appendMissing) := by
+  intro i
+  constructor
+  · intro hlt
+    obtain ⟨P, c0, apps, Q, hes, hP, hlen⟩ := split_at_file n es hlt
+    have hi : i = P.length := hlen.symm
+    subst hes
+    have hwQ : WF Q := fun x hx => hw x (by simp [hx])
+    rw [hi, modify_at_length]
+    refine ⟨?_, wf_replace P Q _ _ hw rfl⟩
+    unfold insertAppend tailOfFile
+    rw [indexOfFile_flat_some n c0 apps P Q hP]
+    simp only
+    -- the data after the file chunk: its appends, then the blocks of Q
+    have hshape : flat (P ++ Entry.file n c0 apps :: Q) =
+        flat P ++ (⟨some n, none, c0⟩ : RF) :: (apps.map nameless ++ flat Q) := by
+      simp [flat_append, flat_cons, chunks]
+    rw [hshape, drop_len_succ, takeWhile_apps apps (flat Q) (takeWhile_flat Q hwQ)]
+    simp only [List.length_map]
+    have hl : (apps.map nameless).length = apps.length := by simp
+    have e1 := take_len_add (flat P) (⟨some n, none, c0⟩ : RF) (apps.map nameless) (flat Q)
+    have e2 := drop_len_add (flat P) (⟨some n, none, c0⟩ : RF) (apps.map nameless) (flat Q)
+    rw [hl] at e1 e2
+    rw [e1, e2]
+    simp [flat_append, flat_cons, chunks, addApp, nameless]
+  · intro hlt
+    unfold insertAppend tailOfFile
+    rw [indexOfFile_flat_none n es hlt]
+
+/-- one artifact: the persister and the abstract semantics fail together (same cause) or step to
+    related states -/
+theorem step_refines (procs : List Proc) (st : State) (m : Meaning) (a : Art) (h : Rel st m) :
+    (∃ c, step procs st a = .error c ∧ meanStep procs m a = .error c) ∨
+    (∃ st' m', step procs st a = .ok st' ∧ meanStep procs m a = .ok m' ∧ Rel st' m') := by
+  cases a with
+  | file name body ow tpl =>
+    cases hc : cleanOK name with
+    | error c => left; exact ⟨c, by simp [step, bind, Except.bind, hc], by simp [meanStep, bind, Except.bind, hc]⟩
+    | ok n =>
+      cases hr : render body tpl with
+      | error c => left; exact ⟨c, by simp [step, bind, Except.bind, hc, hr], by simp [meanStep, bind, Except.bind, hc, hr]⟩
+      | ok text =>
+        cases hp : postProcess procs (Art.file name body ow tpl).kind text with
+        | error c => left; exact ⟨c, by simp [step, bind, Except.bind, hc, hr, hp], by simp [meanStep, bind, Except.bind, hc, hr, hp]⟩
+        | ok c =>
+          right
+          obtain ⟨h1, h2⟩ := insertFile_refines m.entries h.wf n c ow (cleanOK_nonempty name n hc)
+          by_cases hcond : (ow && decide (m.entries.findIdx (isFileEntry n) < m.entries.length)) = true
+          · simp only [hcond, if_true] at h1 h2
+            refine ⟨_, _, by (simp only [step, bind, Except.bind, hc, hr, hp, pure, Except.pure]) <;> rfl,
+              by (simp only [meanStep, bind, Except.bind, hc, hr, hp, hcond, if_true, pure, Except.pure]) <;> rfl, ?_⟩
+            exact ⟨by simp [h.files, h1], h.error, h2⟩
+          · simp only [hcond] at h1 h2
+            refine ⟨_, _, by (simp only [step, bind, Except.bind, hc, hr, hp, pure, Except.pure]) <;> rfl,
+              by simp only [meanStep, bind, Except.bind, hc, hr, hp, hcond, pure, Except.pure]; rfl, ?_⟩
+            exact ⟨by simp [h.files, h1], h.error, h2⟩
+  | app name body tpl =>
+    cases hc : cleanOK name with
+    | error c => left; exact ⟨c, by simp [step, bind, Except.bind, hc], by simp [meanStep, bind, Except.bind, hc]⟩
+    | ok n =>
+      cases hr : render body tpl with
+      | error c => left; exact ⟨c, by simp [step, bind, Except.bind, hc, hr], by simp [meanStep, bind, Except.bind, hc, hr]⟩
+      | ok text =>
+        cases hp : postProcess procs (Art.app name body tpl).kind text with
+        | error c => left; exact ⟨c, by simp [step, bind, Except.bind, hc, hr, hp], by simp [meanStep, bind, Except.bind, hc, hr, hp]⟩
+        | ok c =>
+          obtain ⟨h1, h2⟩ := insertAppend_refines m.entries h.wf n c
+          by_cases hlt : m.entries.findIdx (isFileEntry n) < m.entries.length
+          · right
+            obtain ⟨h3, h4⟩ := h1 hlt
+            refine ⟨_, _, by (simp only [step, bind, Except.bind, hc, hr, hp, h.files, h3, pure, Except.pure]) <;> rfl,
+              by (simp only [meanStep, bind, Except.bind, hc, hr, hp, hlt, if_true, pure, Except.pure]) <;> rfl, ?_⟩
+            exact ⟨rfl, h.error, h4⟩
+          · left
+            exact ⟨_, by (simp only [step, bind, Except.bind, hc, hr, hp, h.files, h2 hlt]) <;> rfl,
+              by (simp only [meanStep, bind, Except.bind, hc, hr, hp, hlt, if_false]) <;> rfl⟩
+  | inj name ip body tpl =>
+    cases hc : cleanOK name with
+    | error c => left; exact ⟨c, by simp [step, bind, Except.bind, hc], by simp [meanStep, bind, Except.bind, hc]⟩
+    | ok n =>
+      cases hr : render body tpl with
+      | error c => left; exact ⟨c, by simp [step, bind, Except.bind, hc, hr], by simp [meanStep, bind, Except.bind, hc, hr]⟩
+      | ok text =>
+        cases hp : postProcess procs (Art.inj name ip body tpl).kind text with
+        | error c => left; exact ⟨c, by simp [step, bind, Except.bind, hc, hr, hp], by simp [meanStep, bind, Except.bind, hc, hr, hp]⟩
+        | ok c =>
+          right
+          refine ⟨_, _, by (simp only [step, bind, Except.bind, hc, hr, hp, pure, Except.pure]) <;> rfl,
+            by (simp only [meanStep, bind, Except.bind, hc, hr, hp, pure, Except.pure]) <;> rfl, ?_⟩
+          refine ⟨?_, h.error, wf_append _ _ h.wf (by simpa [Entry.name] using cleanOK_nonempty name n hc)⟩
+          simp [insertFile, h.files, flat_append, flat_cons, chunks, flat_nil]
+  | custom name body perms ow tpl =>
+    cases hr : render body tpl with
+    | error c => left; exact ⟨c, by simp [step, bind, Except.bind, hr], by simp [meanStep, bind, Except.bind, hr]⟩
+    | ok text =>
+      cases hp : postProcess procs (Art.custom name body perms ow tpl).kind text with
+      | error c => left; exact ⟨c, by simp [step, bind, Except.bind, hr, hp], by simp [meanStep, bind, Except.bind, hr, hp]⟩
+      | ok c =>
+        right
+        refine ⟨{ st with fs := writeFile st.fs name c ow perms }, m,
+          by (simp only [step, bind, Except.bind, hr, hp, pure, Except.pure]) <;> rfl,
+          by (simp only [meanStep, bind, Except.bind, hr, hp, pure, Except.pure]) <;> rfl, ?_⟩
+        exact ⟨h.files, h.error, h.wf⟩
+  | err msg =>
+    right
+    refine ⟨{ st with resp := { st.resp with error := match st.resp.error with
+                                                    | none => some msg
+                                                    | some e => some (e ++ [59, 32] ++ msg) } },
+            { m with error := match m.error with | none => some msg | some e => some (e ++ [59, 32] ++ msg) },
+            by (simp only [step, pure, Except.pure]) <;> rfl, by (simp only [meanStep, pure, Except.pure]) <;> rfl, ?_⟩
+    refine ⟨h.files, ?_, h.wf⟩
+    simp [h.error]
+  | unknown => left; exact ⟨_, rfl, rfl⟩
+
+theorem persistFrom_refines (procs : List Proc) (arts : List Art) : ∀ (st : State) (m : Meaning), Rel st m →
+    (∃ c, persistFrom procs st arts = .error c ∧ meaningFrom procs m arts = .error c) ∨
+    (∃ st' m', persistFrom procs st arts = .ok st' ∧ meaningFrom procs m arts = .ok m' ∧ Rel st' m') := by
+  induction arts with
+  | nil => intro st m h; right; exact ⟨st, m, rfl, rfl, h⟩
+  | cons a as ih =>
+    intro st m h
+    rcases step_refines procs st m a h with ⟨c, h1, h2⟩ | ⟨st', m', h1, h2, h3⟩
+    · left; exact ⟨c, by simp [persistFrom, h1], by simp [meaningFrom, h2]⟩
+    · simp only [persistFrom, meaningFrom, h1, h2]
+      exact ih st' m' h3
+
+/-- **C10**: for every artifact sequence and every post-processor stack, the persister fails
+    exactly when the abstract semantics does (with the same cause); otherwise the response, read
+    under protoc's rules (a nameless chunk continues the preceding entry; an injection never
+    absorbs one), is exactly the list of entries the artifacts mean, with the same joined error. -/
+theorem C10_refines (procs : List Proc) (fs0 : FS) (arts : List Art) :
+    (∃ c, persist procs fs0 arts = .error c ∧ meaning procs arts = .error c) ∨
+    (∃ st m, persist procs fs0 arts = .ok st ∧ meaning procs arts = .ok m ∧
+        interp st.resp.files [] = some m.entries ∧ st.resp.error = m.error) := by
+  have h0 : Rel ⟨⟨[], none⟩, fs0⟩ ⟨[], none⟩ := ⟨rfl, rfl, by intro e he; simp at he⟩
+  rcases persistFrom_refines procs arts _ _ h0 with ⟨c, h1, h2⟩ | ⟨st, m, h1, h2, h3⟩
+  · left; exact ⟨c, h1, h2⟩
+  · right
+    refine ⟨st, m, h1, h2, ?_, h3.error⟩
+    rw [h3.files, interp_flat m.entries h3.wf []]; simp
+
+/-- Φ_C10 holds of the model on every input. -/
+theorem C10_judge (i : In) : judgeC10 i (model i) = none := by
+  unfold judgeC10 model
+  rcases C10_refines i.procs i.fs i.arts with ⟨c, h1, h2⟩ | ⟨st, m, h1, h2, h3, h4⟩
+  · simp [h1, h2]
+  · simp [h1, h2, h3, h4]
+
+/-- Template artifacts behave exactly like their plain counterparts given the rendered text: with
+    processors that do not distinguish the two kinds, a successfully rendering template file steps
+    exactly like the plain file carrying that text. -/
+theorem C10_templates (st : State) (name text : Bytes) (ow : Bool) :
+    step [] st (.file name ⟨text, false⟩ ow true) = step [] st (.file name ⟨text, false⟩ ow false) := by
+  simp [step, render, postProcess, bind, Except.bind]
+
+/-- Post-processors are applied to precisely the artifacts they match, in registration order. -/
+theorem C10_postprocess_order (p : Proc) (ps : List Proc) (k : Nat) (b : Bytes) (hp : p.fails = false) :
+    postProcess (p :: ps) k b = if p.kinds.contains k then postProcess ps k (b ++ p.suffix) else postProcess ps k b := by
+  simp [postProcess, hp]
+
+/-! ### non-vacuity: file a, append, injection, overwrite -/
+example :
+    (persist [] ⟨[], []⟩ [.file [97] ⟨[49], false⟩ false false, .inj [97] [112] ⟨[50], false⟩ false,
+                          .app [97] ⟨[51], false⟩ false, .file [97] ⟨[52], false⟩ true false]).toOption.map (·.resp.files)
+      = some [⟨some [97], none, [52]⟩, ⟨none, none, [51]⟩, ⟨some [97], some [112], [50]⟩] := by decide
+
 end Pgs.Persist
